@@ -137,7 +137,7 @@ Qed.
 (* Config.New: the four ways it ends *)
 
 Definition cfg_ok (c : cfg) : bool :=
-  pvalid (c_netfilter c) && contains (c_home c) (paddr (c_netfilter c)).
+  pvalid (c_netfilter c) && (contains (c_home c) (paddr (c_netfilter c)) && negb (pbits (c_netfilter c) <? pbits (c_home c))).
 
 Lemma new_cases c cap i :
   (cfg_ok c = false /\ new c cap i = Err EInvalidIP)
@@ -152,6 +152,7 @@ Proof.
   unfold new, cfg_ok.
   destruct (pvalid (c_netfilter c)); simpl; [|left; auto].
   destruct (contains (c_home c) (paddr (c_netfilter c))); simpl; [|left; auto].
+  destruct (pbits (c_netfilter c) <? pbits (c_home c)); simpl; [left; auto|].
   right.
   assert (Hnf : loadConfig cap i <> Fuel) by apply loadConfig_total.
   destruct (loadConfig cap i) as [[[o1 o2] ot]|e| |] eqn:E; try congruence.
